@@ -159,7 +159,7 @@ func C13() *engine.Check {
 	}
 	nonString := &engine.Sub{
 		Name:  "like-on-non-strings",
-		Rule:  "like with patterns {*, a*, \\*} against every non-string IPLD kind must be false; non-trivial = all",
+		Rule:  "like with patterns {*, a*, \\*, empty} against every non-string IPLD kind must be false - on the value itself and reached through required / optional field selectors, bare, under and / all / any and behind an index; non-trivial = all",
 		Bound: func(string) string { return "3 patterns x 8 non-string values" },
 		Gen: func(tier string, emit func(any) bool) {
 			for _, p := range []string{"*", "a*", `\*`, ""} {
@@ -187,6 +187,29 @@ func C13() *engine.Check {
 				ctx.Outcome(fmt.Sprint(got))
 				if got {
 					ctx.Failf(cs, "glob/non-string-matches", "like %q matches a %s value", cs.Pattern, k)
+				}
+			}
+			// the same values reached through field selectors, required and optional, bare and under connectives /
+			// quantifiers: a like statement on a value that is there and is not a string is false
+			forms := map[string]policy.Constructor{
+				"like .v?":          policy.Like(".v?", cs.Pattern),
+				"like .v":           policy.Like(".v", cs.Pattern),
+				"and(like .v?)":     policy.And(policy.Like(".v?", cs.Pattern)),
+				"all .w (like .v?)": policy.All(".w", policy.Like(".v?", cs.Pattern)),
+				"any .w (like .v?)": policy.Any(".w", policy.Like(".v?", cs.Pattern)),
+				"like .w[0].v?":     policy.Like(".w[0].v?", cs.Pattern),
+			}
+			for fname, cons := range forms {
+				fp := policy.MustConstruct(cons)
+				for k, v := range vals {
+					d := nMap(kv{"v", v}, kv{"w", nList(nMap(kv{"v", v}))})
+					ctx.Eval(2)
+					ctx.Trans(1)
+					got, _ := fp.Match(d)
+					pgot, _ := fp.PartialMatch(d)
+					if got || pgot {
+						ctx.Failf(cs, "glob/non-string-matches", "%s with pattern %q holds (Match=%v PartialMatch=%v) although v is a %s value", fname, cs.Pattern, got, pgot, k)
+					}
 				}
 			}
 		},
